@@ -11,7 +11,7 @@ import schemacomp_common as sc
 PROBES = [sc.PROBE]
 
 MANIFEST = dict(
-    text='Schemas in which one repeating-group count field has two definitions. (a) SchemaComp.tla, action ReuseCountField: a second message reuses a count field with other members or another nested group (TLC enumerates the small universe exhaustively). (b) MC_SchemaHash.tla: the compiler\'s structural hash (group_hash = rothash folded over the ascending member numbers, then over the nested groups\' hashes) is transcribed in TLA+ (Bitwise, 2x16-bit halves); because rothash(r, v) = Lin(r) ^ v ^ K the fourth member d of a pair of definitions p+{a,b} / p+{c,d} that collide is computed, TLC verifies the collision on the full transcription and builds schemas around every usable solution in four shapes (pair, order of definition swapped, common suffix member, colliding definitions as nested groups of otherwise identical parents). TLC proves DistinctDefsDistinctTraits and OwnTraits for the ideal group table (identity = the definition) on all of them and exhibits the violation for the deviation hash_identity. Every chosen schema goes through the real f8c and g++; TLC judges the metadata of each group occurrence against its own definition (T_SchemaComp) and round trips of both messages - built, encoded, decoded and re-encoded with their own members (T_Codec).',
+    text='Schemas in which one repeating-group count field has two definitions. (a) SchemaComp.tla, action ReuseCountField: a second message reuses a count field with other members or another nested group (TLC enumerates the small universe exhaustively). (b) MC_SchemaHash.tla: the compiler\'s structural hash (group_hash = rothash folded over the ascending member numbers, then over the nested groups\' hashes) is transcribed in TLA+ (Bitwise, 2x16-bit halves); because rothash(r, v) = Lin(r) ^ v ^ K the fourth member d of a pair of definitions p+{a,b} / p+{c,d} that collide is computed, TLC verifies the collision on the full transcription and builds schemas around every usable solution in four shapes (pair, order of definition swapped, common suffix member, colliding definitions as nested groups of otherwise identical parents). TLC proves DistinctDefsDistinctTraits and OwnTraits for the ideal group table (identity = the definition) on all of them and exhibits the violation for the deviation hash_identity. Every chosen schema goes through the real f8c and g++; TLC judges the metadata of each group occurrence against its own definition (T_SchemaComp) and round trips of both messages - built, encoded (wire order and group structure by the C02 monitor), decoded and re-encoded with their own members (T_Codec).',
     note='A rejection is attributed by the metadata monitor from local facts: the group carries the traits of another definition of the same count field and the transcribed hashes of the two definitions are equal (hash_collision) or not (different_hash: unexplained). Same reading of the schema format as C13. Quick tier reuses cached TLC results of an unchanged design spec.',
     tech='TLA+ transcription of the structural hash; collisions solved from its GF(2)-linear form and verified by TLC; TLC-built schemas compiled by the real f8c; TLC trace validation of metadata and codec round trips',
     ref='5.4, 6 C14')
